@@ -1,6 +1,7 @@
 """C15 - inline: unfolding an aggregate-defining rule into its one user keeps values"""
 from __future__ import annotations
 
+import corr_inline
 import semcheck
 import tgen
 import semprop
@@ -9,12 +10,16 @@ from props import _generic
 MODULE = "NgoVerif.Props.C15"
 LEVEL = ("Lean: unfolding a helper's sum into the using element is sum-of-sums: exact iff the per-group tuple sets are disjoint (counterexample: two groups with the same tuple); removing the helper rule is definitional extension read backwards. Candidate selection, function compatibility and tuple padding are decisions of inline.py: validated with clingo on IN u OUT with costs.")
 RULE = ('oracle cases = programs harvested from /repo/tests (inline first) mutations of them and programs of a targeted type-directed generator (harness/tgen.py) under inline only, 5 instances each (empty, small integer/symbolic domains, dense tiny domains, duplicates) over the input predicates; compared: answer sets on IN u OUT + costs; non-trivial = the pass changed the program and at least one instance was compared; distinct by program+flags')
-EXTRA = ['w(1,5,a). w(1,-2,b). s(A,B) :- g(A), B = #sum{Y,T : w(A,Y,T)}. foo(X) :- X = #sum+{F,V : s(V,F)}. g(1). #show foo/1.', 'load(B,L) :- bin(B), L = #sum{W,I : in(I,B), weight(I,W)}. report(X) :- X = #sum{L,B: load(B,L)}, load(B2,L2), limit(M), L2 > M. #show report/1.', 's(A,B) :- a(A), B = #sum{Y : person(A,Y)}. foo(X) :- X = #sum{F : s(V,F)}. #show foo/1.']
+EXTRA = ['{person(A,Y)} :- pp(A,Y). s(A,B) :- a(A), B = #sum{Y : person(A,Y)}. foo(X) :- X = #sum{F,V : s(V,F), ok(V)}. #show foo/1.', 'w(1,5,a). w(1,-2,b). s(A,B) :- g(A), B = #sum{Y,T : w(A,Y,T)}. foo(X) :- X = #sum+{F,V : s(V,F)}. g(1). #show foo/1.', 'load(B,L) :- bin(B), L = #sum{W,I : in(I,B), weight(I,W)}. report(X) :- X = #sum{L,B: load(B,L)}, load(B2,L2), limit(M), L2 > M. #show report/1.', 's(A,B) :- a(A), B = #sum{Y : person(A,Y)}. foo(X) :- X = #sum{F : s(V,F)}. #show foo/1.']
+
+
+def corr(rng, quick):
+    return corr_inline.run(rng, 40 if quick else 2000, corpus_limit=40 if quick else None)
 
 
 def run(ctx) -> int:
     flags = [semcheck.flags_only("inline")]
-    return _generic.run_semantic(ctx, MODULE, LEVEL, RULE, flags, 'inout', {'inline'}, EXTRA, (110, 700), (80, 3000),
+    return _generic.run_semantic(ctx, MODULE, LEVEL, RULE, flags, 'inout', {'inline'}, EXTRA, (110, 700), (80, 3000), corr=[('inline', corr)],
                                  n_inst=5, facts_over='in', outp_choices=('auto',), one_to_one=True, generators=[tgen.GENERATORS['inline']],
                                  assumptions=("the pass's syntactic decisions are not derived from the ground-level side conditions in Lean (validated by the oracle)", 'instances range over the declared/auto-detected input predicates only'))
 
